@@ -1236,13 +1236,14 @@ func valueFromIndex(info *mapper.Info, columnKeys []model.ColumnKey) (interface{
 			if err != nil {
 				return "", err
 			}
-			// if object is nil dont try to encode it
+			// a nil object or nil pointer (unset optional) cannot be encoded; its
+			// position is: without it (nil, "a") and ("a", nil) would share a key
 			value := reflect.ValueOf(val)
-			if value.Kind() == reflect.Invalid {
-				continue
+			present := value.Kind() != reflect.Invalid && !(value.Kind() == reflect.Pointer && value.IsNil())
+			if err = enc.Encode(present); err != nil {
+				return "", err
 			}
-			// if object is a nil pointer dont try to encode it
-			if value.Kind() == reflect.Pointer && value.IsNil() {
+			if !present {
 				continue
 			}
 			err = enc.Encode(val)
